@@ -9,8 +9,11 @@ def run(tier):
     rp = replay.Replay("harness.modes:c11")
     for sr in ("addmul", "logaddexp"):
         tmo = 900 if tier == "quick" else 3000
-        rp.run_lens("semiring_" + sr, cfg="adjoint_" + sr, limit=LIMIT[tier], timeout=tmo)
-        rp.run_lens("adjsubs_" + sr, limit=LIMIT[tier], timeout=tmo)
+        # (the adjoint lenses evaluate DTerm for every leaf in TLC: 15 workers, i.e. the prefix taken
+        # by `limit` is not the same in every run; known findings are matched by feature, and the
+        # thorough tier takes a prefix 7x as long)
+        rp.run_lens("semiring_" + sr, cfg="adjoint_" + sr, limit=LIMIT[tier], timeout=tmo, workers=15)
+        rp.run_lens("adjsubs_" + sr, limit=LIMIT[tier], timeout=tmo, workers=15)
     # non-injective substitutions of a leaf (diagonals), whole lens
     rp.run_lens("adjdiag", timeout=1500)
     out.add_replay(rp, "adjoint")
